@@ -23,7 +23,7 @@ pub fn prop() -> Prop {
     Prop {
         id: "C10",
         level: "exploration",
-        rule: "proptest tapes decoding to a framebuffer configuration (7 raw widths x 2 data orders x sizes 9x3, 5x2, 8x2, 1x1 -- rows ending on and off a byte boundary -- and, one case in 25, 300x2 with exact N or 2x300 with one spare byte, and, one case in 200, 65540x1 or 1x65540 with at most 3 operations and, for two sizes, N = buffer_size + 3) and a history of 1..=24 operations from {set_pixel, draw_iter with several pixels, fill_solid, clear, draw a styled rectangle/circle/line/triangle, draw a raw image} with points inside and up to 3 pixels outside every edge and also far outside (i32 extremes). Oracle (model-based): a last-write map; after every operation pixel(p) == model for every p in the box plus a margin (zero colour if never written, None outside), data() equals the byte image computed from the model by an independent writer of the documented ImageRaw layout (so writes outside change no byte and surplus bytes stay 0), as_image() has the framebuffer's size, as_image().pixel == pixel, and drawing as_image() onto a recording target reproduces the model. Non-trivial: at least two writes landed at different x modulo the pixels per byte and one written pixel was overwritten with a different colour.",
+        rule: "proptest tapes decoding to a framebuffer configuration (7 raw widths x 2 data orders x sizes 9x3, 5x2, 8x2, 1x1 -- rows ending on and off a byte boundary -- and, one case in 25, 300x2 with exact N or 2x300 with one spare byte, one case in 25 97x5 with two spare bytes and shapes / fills / images as wide as the framebuffer, and, one case in 200, 65540x1 or 1x65540 with at most 3 operations and, for two sizes, N = buffer_size + 3) and a history of 1..=24 operations from {set_pixel, draw_iter with several pixels, fill_solid, clear, draw a styled rectangle/circle/line/triangle, draw a raw image} with points inside and up to 3 pixels outside every edge and also far outside (i32 extremes). Oracle (model-based): a last-write map; after every operation pixel(p) == model for every p in the box plus a margin (zero colour if never written, None outside), data() equals the byte image computed from the model by an independent writer of the documented ImageRaw layout (so writes outside change no byte and surplus bytes stay 0), as_image() has the framebuffer's size, as_image().pixel == pixel, and drawing as_image() onto a recording target reproduces the model. Non-trivial: at least two writes landed at different x modulo the pixels per byte and one written pixel was overwritten with a different colour.",
         assumptions: vec![
             "framebuffer sizes are const generics, so a fixed list of sizes is instantiated",
             "the effect of a drawable on the model is taken from drawing it onto the unbounded recording target (pinned by C01) and keeping the points inside the framebuffer",
@@ -92,7 +92,9 @@ fn histories(d: &mut Dec, cx: &mut Cx) -> Res {
     let combo = d.u(0, 13);
     // sizes 0..=5 equally likely; one case in 25 uses a 300x2 or a 2x300 framebuffer (byte offsets and
     // row numbers beyond 255)
-    let size_sel = { let k = d.u(0, 49); if k >= 48 { 6 + (k - 48) } else { k % 6 } };
+    let size_sel = { let k = d.u(0, 49); if k >= 48 { 6 + (k - 48) } else if k >= 46 { 10 } else { k % 6 } };
+    // (k = 46, 47: a 97x5 framebuffer with shapes, fills and images as wide as the framebuffer — row runs of
+    // 60..100 pixels, between the tiny sizes and the 300-px strips)
     // auxiliary words 5 and 6: one case in 200 uses a 65540x1 or 1x65540 framebuffer (coordinates, byte
     // and pixel offsets beyond 65535), with at most 3 operations
     let size_sel = if d.aux_u(5, 0, 199) == 199 { 8 + d.aux_u(6, 0, 1) } else { size_sel };
@@ -109,6 +111,7 @@ fn histories(d: &mut Dec, cx: &mut Cx) -> Res {
                 7 => run::<$c, Framebuffer<$c, $r, $o, 2, 300, { bufsize(2, 300, $bpp) + 1 }>>(d, cx, $bpp, be, 2, 300, 1),
                 8 => run::<$c, Framebuffer<$c, $r, $o, 65540, 1, { bufsize(65540, 1, $bpp) }>>(d, cx, $bpp, be, 65540, 1, 0),
                 9 => run::<$c, Framebuffer<$c, $r, $o, 1, 65540, { bufsize(1, 65540, $bpp) }>>(d, cx, $bpp, be, 1, 65540, 0),
+                10 => run::<$c, Framebuffer<$c, $r, $o, 97, 5, { bufsize(97, 5, $bpp) + 2 }>>(d, cx, $bpp, be, 97, 5, 2),
                 _ => run::<$c, Framebuffer<$c, $r, $o, 1, 1, { bufsize(1, 1, $bpp) }>>(d, cx, $bpp, be, 1, 1, 0),
             }
         };
@@ -184,6 +187,7 @@ where
     // 0, 2^15, 2^16, the far end and every touched coordinate instead of on all 330 000 points
     let huge = w.max(h) > 60_000;
     let nops = if huge { d.u(1, 3) } else { d.u(1, 24) };
+    let mid = w == 97;
     let mut log: Vec<String> = vec![];
     let want = cx.want_desc;
     let mut xs_mod = std::collections::BTreeSet::new();
@@ -273,13 +277,13 @@ where
                 // (no triangles at coordinates around 2^16: `Triangle::area_doubled` multiplies absolute coordinates in i32)
                 match if huge { d.u(0, 2) } else { d.u(0, 3) } {
                     0 => {
-                        let s = Rectangle::new(p0, Size::new(d.u(0, 8), d.u(0, 5))).into_styled(style);
+                        let s = Rectangle::new(p0, Size::new(d.u(0, if mid { 101 } else { 8 }), d.u(0, 5))).into_styled(style);
                         what = format!("{:?}", s.primitive);
                         s.draw(&mut fb).unwrap();
                         s.draw(&mut rec).unwrap();
                     }
                     1 => {
-                        let s = Circle::new(p0, d.u(0, 8)).into_styled(style);
+                        let s = Circle::new(p0, d.u(0, if mid { 30 } else { 8 })).into_styled(style);
                         what = format!("{:?}", s.primitive);
                         s.draw(&mut fb).unwrap();
                         s.draw(&mut rec).unwrap();
@@ -307,7 +311,7 @@ where
             }
             _ => {
                 // a raw image of the same colour type (little endian, MSB first)
-                let (iw, ih) = (d.u(0, 6), d.u(0, 3));
+                let (iw, ih) = (d.u(0, if mid { 101 } else { 6 }), d.u(0, 3));
                 let istride = (iw as usize * bpp + 7) / 8;
                 let mut x = d.raw() | 1;
                 let data: Vec<u8> = (0..istride * ih as usize)
